@@ -335,6 +335,14 @@ def install(reg):
 
     M[torch.fft.fftfreq] = m_fftfreq
 
+    def m_remainder(interp, x, y):
+        """torch.remainder(x, y) = x - y*floor(x/y) (sign of the divisor), the Python % on reals."""
+        if isinstance(x, (Sym, SymArr)) or isinstance(y, (Sym, SymArr)):
+            return x % y if isinstance(x, (Sym, SymArr)) else S(x) % y
+        return interp.native(torch.remainder, x, y)
+
+    M[torch.remainder] = m_remainder
+
     def m_square(interp, x):
         if isinstance(x, (Sym, SymArr)):
             return x * x
